@@ -27,11 +27,14 @@ R = Registry(
         "InvalidRequestError, 'auto' falls back to fetch), matches objects by identity tests on the "
         "evaluator result, consumes the undecided (expired) flag and never stores the sentinel; the in-session "
         "candidates of the evaluate synchroniser are filtered by mapper, not-expired and -- exactly when a token was "
-        "given -- identity token; identity tokens are tested with `is None`/`is not None`, never for truthiness."
+        "given -- identity token; identity tokens are tested with `is None`/`is not None`, never for truthiness; the "
+        "statement's WHERE criteria and options (loader criteria) flow into the pre-fetch SELECT of 'fetch' and into the "
+        "criteria compiled for 'evaluate', and the pre-fetch SELECT is executed with the statement's parameters, execution "
+        "options and bind arguments."
     ),
     not_decided=(
         "equality of evaluated and database truth for arbitrary criteria (collations, numeric precision, "
-        "division by zero, type coercion); the 'fetch' strategy; RETURNING handling."
+        "division by zero, type coercion); what the 'fetch' strategy does with the fetched rows; RETURNING handling."
     ),
 )
 
@@ -74,15 +77,29 @@ def _sentinel_tests(g, var, sentinel):
             if any(p is False and re.fullmatch(rf"{re.escape(var)} is (\w+\.)*{sentinel}", a) for a, p in atoms):
                 other = "true" if clean == "false" else "false"
                 osucc = [b for b, l in g.succ[n.id] if l == other]
+                # `return <var>` hands back the sentinel too when the test compares nothing but <var> by identity
+                # (`if v is S: return v`, `if v is S or v is T: return v`)
+                same = _only_identity_tests_on(n.stmt.test, var)
                 rets = bool(osucc) and all(
                     isinstance(g.nodes[b].stmt, ast.Return) and g.nodes[b].kind == "stmt" and g.nodes[b].stmt.value is not None
-                    and (_is_name(g.nodes[b].stmt.value, sentinel) if sentinel != "None" else
-                         (isinstance(g.nodes[b].stmt.value, ast.Constant) and g.nodes[b].stmt.value.value is None))
+                    and ((_is_name(g.nodes[b].stmt.value, sentinel) if sentinel != "None" else
+                          (isinstance(g.nodes[b].stmt.value, ast.Constant) and g.nodes[b].stmt.value.value is None))
+                         or (same and isinstance(g.nodes[b].stmt.value, ast.Name) and g.nodes[b].stmt.value.id == var))
                     for b in osucc
                 )
                 out.append((n.id, rets, clean))
                 break
     return out
+
+
+def _only_identity_tests_on(test, var):
+    """is `test` built (and / or / not) from identity comparisons `<var> is X` / `<var> is not X` of this one variable only"""
+    if isinstance(test, ast.BoolOp):
+        return all(_only_identity_tests_on(v, var) for v in test.values)
+    if isinstance(test, ast.UnaryOp) and isinstance(test.op, ast.Not):
+        return _only_identity_tests_on(test.operand, var)
+    return (isinstance(test, ast.Compare) and len(test.ops) == 1 and isinstance(test.ops[0], (ast.Is, ast.IsNot))
+            and isinstance(test.left, ast.Name) and test.left.id == var)
 
 
 def _sub_calls(cl, outer=None):
@@ -811,6 +828,119 @@ def r5(ctx):
     ctx.check(not probs, f"{f.key}:filter[identity-token]", "; ".join(probs), "token equality, bypassed only by `token is None`", f.loc)
 
 
+# ---------------------------------------------------------------------- R6: the rows looked at are the rows touched
+#: positional protocol of the _do_pre_synchronize_<strategy> classmethods (after cls)
+PRESYNC_PARAMS = ("session", "statement", "params", "execution_options", "bind_arguments", "update_options")
+
+
+def _root_name(e):
+    while isinstance(e, (ast.Attribute, ast.Subscript, ast.Call)):
+        e = e.func if isinstance(e, ast.Call) else e.value
+    return e.id if isinstance(e, ast.Name) else None
+
+
+@R.rule("C43-R6", floor=7, template="T-FLOW",
+        desc="both synchronisers decide on the rows the statement itself touches: every row-restricting component of the "
+             "UPDATE/DELETE -- its WHERE criteria and its options (with_loader_criteria() adds WHERE criteria at compile "
+             "time) -- flows into the pre-fetch SELECT of 'fetch' and into the criteria compiled for 'evaluate', and the "
+             "pre-fetch SELECT is executed with the statement's parameters, execution options and bind arguments "
+             "(same shard / bind / bound values)")
+def r6(ctx):
+    from ._helpers_str2_q import flows_into
+    base = f"{BP}::_BulkUDCompileState"
+
+    def attr_of(param, attr):
+        def pred(x):
+            return isinstance(x, ast.Attribute) and x.attr == attr and _root_name(x.value) == param
+        return pred
+
+    def is_param(param):
+        def pred(x):
+            return isinstance(x, ast.Name) and x.id == param and isinstance(x.ctx, ast.Load)
+        return pred
+
+    # ---- fetch
+    f0 = ctx.func(f"{base}._do_pre_synchronize_fetch")
+    ctx.functions_analysed.add(f0.key)
+    f = G.normal_form(ctx, f0)
+    pos = [a.arg for a in f.node.args.posonlyargs + f.node.args.args if a.arg != "cls"]
+    ctx.require(len(pos) == len(PRESYNC_PARAMS), f"{f0.key}: expected the {len(PRESYNC_PARAMS)} positional parameters of the pre-synchronize protocol, found {pos}")
+    p = dict(zip(PRESYNC_PARAMS, pos))
+    g = ctx.cfg(f.node)
+    pm = G_parent_map(f.node)
+    sinks = [c for c in walk_local(f.node) if isinstance(c, ast.Call) and isinstance(c.func, ast.Attribute) and c.func.attr == "execute"
+             and _root_name(c.func.value) == p["session"]]
+    ctx.require(len(sinks) == 1, f"{f0.key}: expected exactly one `<session>.execute(...)` (the pre-fetch SELECT), found {len(sinks)}")
+    sink = sinks[0]
+    st = sink
+    while st in pm and not isinstance(st, ast.stmt):
+        st = pm[st]
+    ctx.require(bool(sink.args), f"{f0.key}: the pre-fetch execute() has no statement argument")
+    loc = f"{f0.module.path}:{sink.lineno}"
+    res = flows_into(g, f.node, st, sink.args[0], {
+        "where": attr_of(p["statement"], "_where_criteria"),
+        "options": attr_of(p["statement"], "_with_options"),
+    })
+    ctx.check(res["where"], f"{f0.key}:prefetch[where-criteria]",
+              f"the pre-fetch SELECT `{unparse(sink.args[0])}` does not receive `{p['statement']}._where_criteria`: it selects rows "
+              "the UPDATE/DELETE does not touch, whose in-session objects are then updated / evicted",
+              "statement._where_criteria reaches the pre-fetch SELECT", loc)
+    ctx.check(res["options"], f"{f0.key}:prefetch[options]",
+              f"the pre-fetch SELECT `{unparse(sink.args[0])}` does not receive `{p['statement']}._with_options`: with_loader_criteria() "
+              "options add WHERE criteria to the UPDATE/DELETE at compile time, so without them the SELECT matches a superset of "
+              "the rows the statement touches and 'fetch' applies SET values to (or evicts) objects whose rows were left alone",
+              "statement._with_options reaches the pre-fetch SELECT", loc)
+    # how it is executed: Session.execute(statement, params=None, *, execution_options=..., bind_arguments=...)
+    slots = {"params": (1, "params"), "execution_options": (2, "execution_options"), "bind_arguments": (3, "bind_arguments")}
+    why = {"params": "the bound values of the WHERE criteria are missing / different",
+           "execution_options": "shard ids, schema translation and other per-execution routing differ from the DML statement's",
+           "bind_arguments": "the SELECT may run on another bind / shard than the DML statement"}
+    for name, (i, kwname) in slots.items():
+        arg = sink.args[i] if len(sink.args) > i else next((k.value for k in sink.keywords if k.arg == kwname), None)
+        ok = arg is not None and flows_into(g, f.node, st, arg, {"x": is_param(p[name])})["x"]
+        ctx.check(ok, f"{f0.key}:prefetch[{name}]",
+                  f"the pre-fetch SELECT is executed without the statement's `{p[name]}`: {why[name]}, so the rows it matches are "
+                  "not the rows the UPDATE/DELETE touches", f"{p[name]} passed on to execute()", loc)
+    # ---- evaluate: the compiled condition covers WHERE criteria and loader criteria
+    e0 = ctx.func(f"{base}._eval_condition_from_statement")
+    ctx.functions_analysed.add(e0.key)
+    e = G.normal_form(ctx, e0)
+    epos = [a.arg for a in e.node.args.posonlyargs + e.node.args.args if a.arg != "cls"]
+    ctx.require(len(epos) == 2, f"{e0.key}: expected (update_options, statement), found {epos}")
+    stmt_p = epos[1]
+    eg = ctx.cfg(e.node)
+    epm = G_parent_map(e.node)
+    edefs = G.single_defs(e.node)
+    procs = []
+    for c in walk_local(e.node):
+        if isinstance(c, ast.Call) and isinstance(c.func, ast.Attribute) and c.func.attr == "process":
+            rc = G.resolve_name(c.func.value, edefs)
+            if isinstance(rc, ast.Call) and (call_name(rc) or "").endswith("_EvaluatorCompiler"):
+                procs.append(c)
+    ctx.require(len(procs) == 1, f"{e0.key}: expected exactly one `_EvaluatorCompiler(..).process(...)`, found {len(procs)}")
+    proc = procs[0]
+    est = proc
+    while est in epm and not isinstance(est, ast.stmt):
+        est = epm[est]
+    argx = ast.Tuple(elts=[a.value if isinstance(a, ast.Starred) else a for a in proc.args], ctx=ast.Load())
+    eres = flows_into(eg, e.node, est, argx, {
+        "where": attr_of(stmt_p, "_where_criteria"),
+        "options": attr_of(stmt_p, "_with_options"),
+    })
+    eloc = f"{e0.module.path}:{proc.lineno}"
+    ctx.check(eres["where"], f"{e0.key}:compiled[where-criteria]",
+              f"the criteria compiled for 'evaluate' (`{unparse(proc)}`) do not include `{stmt_p}._where_criteria`: every in-session "
+              "object of the mapper is treated as matched", "statement._where_criteria is compiled", eloc)
+    ctx.check(eres["options"], f"{e0.key}:compiled[options]",
+              f"the criteria compiled for 'evaluate' (`{unparse(proc)}`) do not include what `{stmt_p}._with_options` contributes "
+              "(with_loader_criteria() options add WHERE criteria to the UPDATE/DELETE): objects the loader criteria exclude are "
+              "synchronised although their rows are left alone", "loader criteria of statement._with_options are compiled", eloc)
+
+
+def G_parent_map(node):
+    return {ch: par for par in ast.walk(node) for ch in ast.iter_child_nodes(par)}
+
+
 def _ancestors_of(pm, node, stop):
     cur = pm.get(node)
     while cur is not None and cur is not stop:
@@ -994,3 +1124,68 @@ R.mutant("auto-handler-form-falls-through-to-evaluate", BP,
 R.mutant("benign-set-values-locals-renamed", BP, chain(sub("to_evaluate", "evaluable", count=12), sub("evaluator_compiler", "criteria_compiler", count=4)), None)
 R.mutant("set-values-renamed-nothing-expired", BP,
          chain(sub("to_evaluate", "evaluable", count=12), sub("            to_expire = attrib.intersection(dict_).difference(evaluable)\n", "            to_expire = set()\n")), "C43-R4")
+
+# ---- round 2 (str2-q): seeds C43_3 / C43_4 and the families they belong to
+_UNARY = "                if value is _EXPIRED_OBJECT:\n                    return _EXPIRED_OBJECT\n                elif value is None:\n                    return None\n                return not value\n"
+R.mutant("seed3-unary-null-guard-merged-into-no-object-test", EV,
+         sub(_UNARY, "                if value is _EXPIRED_OBJECT or value is _NO_OBJECT:\n                    return value\n                return not value\n"),
+         "C43-R1")
+R.mutant("unary-null-guard-tests-truthiness", EV,
+         sub(_UNARY, "                if value is _EXPIRED_OBJECT:\n                    return value\n                elif not value:\n                    return None\n                return not value\n"),
+         "C43-R1")
+R.mutant("benign-unary-guards-return-the-tested-value", EV,
+         sub(_UNARY, "                if value is _EXPIRED_OBJECT:\n                    return value\n                if value is None:\n                    return value\n                return not value\n"),
+         None)
+R.mutant("benign-unary-guards-merged-return-the-tested-value", EV,
+         sub(_UNARY, "                if value is _EXPIRED_OBJECT or value is None:\n                    return value\n                return not value\n"),
+         None)
+R.mutant("unary-merged-guard-returns-other-variable", EV,
+         sub(_UNARY, "                if value is _EXPIRED_OBJECT or value is None:\n                    return obj\n                return not value\n"),
+         "C43-R1")
+_PREFETCH = ("        select_stmt = (\n            select(*(mapper.primary_key + (mapper.select_identity_token,)))\n            .select_from(mapper)\n"
+             "            .options(*statement._with_options)\n        )\n        select_stmt._where_criteria = statement._where_criteria\n")
+R.mutant("seed4-prefetch-select-loses-statement-options", BP,
+         sub(_PREFETCH, "        select_stmt = select(\n            *(mapper.primary_key + (mapper.select_identity_token,))\n        ).select_from(mapper)\n"
+                        "        select_stmt._where_criteria = statement._where_criteria\n"),
+         "C43-R6")
+R.mutant("prefetch-select-where-criteria-assigned-after-execute", BP,
+         chain(sub("        select_stmt._where_criteria = statement._where_criteria\n", ""),
+               sub("        matched_rows = result.fetchall()\n", "        select_stmt._where_criteria = statement._where_criteria\n        matched_rows = result.fetchall()\n")),
+         "C43-R6")
+R.mutant("prefetch-select-executed-without-bind-arguments", BP,
+         sub("            select_stmt,\n            params,\n            execution_options=execution_options,\n            bind_arguments=bind_arguments,\n            _add_event=skip_for_returning,\n",
+             "            select_stmt,\n            params,\n            execution_options=execution_options,\n            _add_event=skip_for_returning,\n"),
+         "C43-R6")
+R.mutant("prefetch-select-executed-with-fresh-execution-options", BP,
+         sub("            select_stmt,\n            params,\n            execution_options=execution_options,\n            bind_arguments=bind_arguments,\n            _add_event=skip_for_returning,\n",
+             "            select_stmt,\n            params,\n            execution_options=util.EMPTY_DICT,\n            bind_arguments=bind_arguments,\n            _add_event=skip_for_returning,\n"),
+         "C43-R6")
+R.mutant("evaluate-condition-ignores-loader-criteria", BP,
+         sub("        for opt in statement._with_options:\n            if opt._is_criteria_option:\n                opt.get_global_criteria(global_attributes)\n\n", ""),
+         "C43-R6")
+R.mutant("evaluate-condition-compiles-loader-criteria-only", BP,
+         sub("        if statement._where_criteria:\n            crit += statement._where_criteria\n\n        global_attributes = {}\n", "        global_attributes = {}\n"),
+         "C43-R6")
+R.mutant("benign-prefetch-select-generative-where-and-option-alias", BP,
+         sub(_PREFETCH, "        loader_options = statement._with_options\n        pk_and_token = mapper.primary_key + (mapper.select_identity_token,)\n"
+                        "        select_stmt = select(*pk_and_token).select_from(mapper)\n        select_stmt = select_stmt.options(*loader_options)\n"
+                        "        if statement._where_criteria:\n            select_stmt = select_stmt.where(*statement._where_criteria)\n"),
+         None)
+R.mutant("benign-prefetch-select-built-by-classmethod-helper", BP,
+         chain(sub(_PREFETCH, "        select_stmt = cls._prefetch_select_for(mapper, statement)\n"),
+               sub("    @classmethod\n    def _do_pre_synchronize_fetch(\n",
+                   "    @classmethod\n    def _prefetch_select_for(cls, mapper, dml):\n        stmt = select(\n            *(mapper.primary_key + (mapper.select_identity_token,))\n        ).select_from(mapper)\n"
+                   "        stmt = stmt.options(*dml._with_options)\n        stmt._where_criteria = dml._where_criteria\n        return stmt\n\n"
+                   "    @classmethod\n    def _do_pre_synchronize_fetch(\n")),
+         None)
+R.mutant("prefetch-helper-form-loses-options", BP,
+         chain(sub(_PREFETCH, "        select_stmt = cls._prefetch_select_for(mapper, statement)\n"),
+               sub("    @classmethod\n    def _do_pre_synchronize_fetch(\n",
+                   "    @classmethod\n    def _prefetch_select_for(cls, mapper, dml):\n        stmt = select(\n            *(mapper.primary_key + (mapper.select_identity_token,))\n        ).select_from(mapper)\n"
+                   "        stmt._where_criteria = dml._where_criteria\n        return stmt\n\n"
+                   "    @classmethod\n    def _do_pre_synchronize_fetch(\n")),
+         "C43-R6")
+R.mutant("benign-evaluate-condition-criteria-collected-in-a-list", BP,
+         sub("        crit = ()\n        if statement._where_criteria:\n            crit += statement._where_criteria\n\n        global_attributes = {}\n        for opt in statement._with_options:\n            if opt._is_criteria_option:\n                opt.get_global_criteria(global_attributes)\n\n        if global_attributes:\n            crit += cls._adjust_for_extra_criteria(global_attributes, mapper)\n",
+             "        criteria = list(statement._where_criteria)\n\n        extra = {}\n        for option in statement._with_options:\n            if not option._is_criteria_option:\n                continue\n            option.get_global_criteria(extra)\n\n        if extra:\n            criteria.extend(cls._adjust_for_extra_criteria(extra, mapper))\n        crit = tuple(criteria)\n"),
+         None)
